@@ -83,7 +83,7 @@ fn do_case(kvs: &[Kv], fr: Front, geom: Geom, ty: u64, st: &mut Stats, rep: &Rep
         Err(msg) => rep.violation(
             format!("{} {:?} {:?} ty={}", if kvs.len() <= 8 { kvs_str(kvs) } else { format!("{} keys", kvs.len()) }, fr, geom, ty),
             msg,
-            if kvs.len() <= 2000 { json!({"kvs": kvs_json(kvs), "front": format!("{:?}", fr), "geom": [geom.0, geom.1], "ty": ty}) } else { json!({"size_family": kvs.len(), "front": format!("{:?}", fr), "geom": [geom.0, geom.1], "ty": ty}) },
+            if kvs.len() > 1_000_000 && kvs[1].0.len() == 3 { json!({"big_dense": true, "shift": if kvs[0].0.len() == 3 { 0 } else { kvs[0].0.len() - 1 }, "front": format!("{:?}", fr), "geom": [geom.0, geom.1], "ty": ty}) } else if kvs.len() <= 2000 { json!({"kvs": kvs_json(kvs), "front": format!("{:?}", fr), "geom": [geom.0, geom.1], "ty": ty}) } else { json!({"size_family": kvs.len(), "front": format!("{:?}", fr), "geom": [geom.0, geom.1], "ty": ty}) },
         ),
     }
 }
@@ -93,7 +93,7 @@ pub fn size_family(n: u64) -> Vec<Kv> {
 }
 
 pub fn replay(case: &Value) -> Result<String, String> {
-    let kvs = if case["size_family"].is_u64() { size_family(case["size_family"].as_u64().unwrap()) } else { kvs_from(&case["kvs"]) };
+    let kvs = if case["big_dense"].as_bool() == Some(true) { big_dense_variant(case["shift"].as_u64().unwrap_or(0) as usize) } else if case["size_family"].is_u64() { size_family(case["size_family"].as_u64().unwrap()) } else { kvs_from(&case["kvs"]) };
     let fr = front_from(case["front"].as_str().unwrap());
     let geom = geom_from(&case["geom"]);
     let ty = case["ty"].as_u64().unwrap();
@@ -214,6 +214,22 @@ pub fn plan(tier: Tier) -> Plan {
                 }
             }));
         }
+    }
+    for part in 0..32usize {
+        p.units.push(unit("fanout-x-output-width-grid", format!("grid part {}", part), move |st, rep| {
+            for (_, kvs) in fan_width_grid(part, 32) {
+                st.nontrivial += (kvs.len() >= 2) as u64;
+                st.count("grid_cases", 1);
+                do_case(&kvs, Front::RawInsert, (3, 3), 0, st, rep);
+            }
+        }));
+    }
+    for shift in 0..(if thorough { 4usize } else { 2 }) {
+        p.units.push(unit("file-larger-than-16MiB", format!("big dense shift {}", shift), move |st, rep| {
+            let kvs = big_dense_variant(shift);
+            st.nontrivial += 1;
+            do_case(&kvs, Front::RawInsert, DEFAULT_GEOM, 0, st, rep);
+        }));
     }
     let sizes: Vec<u64> = if thorough { vec![3_000, 70_000, 1_200_000] } else { vec![3_000, 70_000] };
     for n in sizes {
